@@ -345,6 +345,15 @@ impl Lut {
         }
     }
 
+    /// Verification hook (guard: `--cfg volute_verif`): the iterator of `all_functions`, positioned on an arbitrary table
+    #[cfg(volute_verif)]
+    pub fn verif_iter_from(start: Lut) -> LutIterator {
+        LutIterator {
+            lut: start,
+            ok: true,
+        }
+    }
+
     /// Compute the number of nodes in the BDD representing these functions
     ///
     /// Equivalent functions (up to output complementation) are represented by the same BDD node.
